@@ -422,24 +422,24 @@ DescriptionsDelimited(inp, out) ==
 \* every byte outside all lexemes is whitespace, a line end, comment text or an annotation delimiter.
 \* Gap grammar (a small recogniser over the bytes between two lexemes): blanks and line ends; "#" up
 \* to the end of line; "###" ... "###"; "//" directly before an annotation lexeme; "/*" before and "*/"
-\* after one.
-RECURSIVE GapOK(_, _, _, _, _)
-GapOK(inp, i, j, nextIsAnnot, prevIsAnnot) ==      \* bytes i..j (0-based, inclusive) form the gap
+\* after one.  A comment that begins with "###" is a block comment and runs to the next "###" - except on the line
+\* of an annotation, where every "#" starts a one-line comment (al: an annotation lexeme ended earlier on this line).
+RECURSIVE GapOK(_, _, _, _, _, _)
+GapOK(inp, i, j, nextIsAnnot, prevIsAnnot, al) ==      \* bytes i..j (0-based, inclusive) form the gap
   IF i > j THEN TRUE
   ELSE LET c == ByteAt(inp, i) IN
-       IF Ws(c) \/ Nl(c) THEN GapOK(inp, i + 1, j, nextIsAnnot, FALSE)
+       IF Nl(c) THEN GapOK(inp, i + 1, j, nextIsAnnot, FALSE, FALSE)
+       ELSE IF Ws(c) THEN GapOK(inp, i + 1, j, nextIsAnnot, FALSE, al)
        ELSE IF c = 35 THEN
-            \* a "#" starts a comment: either up to the end of the line, or - if it is "###" - up to the
-            \* next "###" (which of the two the language means depends on the context; either reading is
-            \* accepted here, the question is only whether the skipped bytes are comment text)
             LET eol == {k \in i..j : Nl(ByteAt(inp, k))}
-                asLine == IF eol = {} THEN TRUE ELSE GapOK(inp, CHOOSE k \in eol : \A m \in eol : k <= m, j, nextIsAnnot, FALSE)
+                asLine == IF eol = {} THEN TRUE ELSE GapOK(inp, CHOOSE k \in eol : \A m \in eol : k <= m, j, nextIsAnnot, FALSE, FALSE)
                 ends == {k \in (i + 3)..(j - 2) : ByteAt(inp, k) = 35 /\ ByteAt(inp, k + 1) = 35 /\ ByteAt(inp, k + 2) = 35}
-                asBlock == ByteAt(inp, i + 1) = 35 /\ ByteAt(inp, i + 2) = 35 /\ i + 2 <= j /\ ends # {}
-                           /\ GapOK(inp, (CHOOSE k \in ends : \A m \in ends : k <= m) + 3, j, nextIsAnnot, FALSE)
-            IN asLine \/ asBlock
+                triple == ByteAt(inp, i + 1) = 35 /\ ByteAt(inp, i + 2) = 35 /\ i + 2 <= j
+                asBlock == triple /\ ends # {}
+                           /\ GapOK(inp, (CHOOSE k \in ends : \A m \in ends : k <= m) + 3, j, nextIsAnnot, FALSE, FALSE)
+            IN IF triple /\ ~al THEN asBlock ELSE asLine
        ELSE IF c = 47 /\ ByteAt(inp, i + 1) \in {47, 42} /\ i + 1 = j /\ nextIsAnnot THEN TRUE
-       ELSE IF c = 42 /\ ByteAt(inp, i + 1) = 47 /\ prevIsAnnot THEN GapOK(inp, i + 2, j, nextIsAnnot, FALSE)
+       ELSE IF c = 42 /\ ByteAt(inp, i + 1) = 47 /\ prevIsAnnot THEN GapOK(inp, i + 2, j, nextIsAnnot, FALSE, TRUE)
        ELSE FALSE
 
 OnlyTriviaSkipped(inp, out, upto) ==     \* upto: number of input bytes the scanner has consumed
@@ -447,6 +447,6 @@ OnlyTriviaSkipped(inp, out, upto) ==     \* upto: number of input bytes the scan
   /\ \A i \in 1..n :
         LET from == IF i = 1 THEN 0 ELSE out[i - 1][3] + 1
             to   == out[i][2] - 1
-        IN GapOK(inp, from, to, out[i][1] = 2, i > 1 /\ out[i - 1][1] = 2)
-  /\ GapOK(inp, IF n = 0 THEN 0 ELSE out[n][3] + 1, upto - 1, FALSE, n > 0 /\ out[n][1] = 2)
+        IN GapOK(inp, from, to, out[i][1] = 2, i > 1 /\ out[i - 1][1] = 2, i > 1 /\ out[i - 1][1] = 2)
+  /\ GapOK(inp, IF n = 0 THEN 0 ELSE out[n][3] + 1, upto - 1, FALSE, n > 0 /\ out[n][1] = 2, n > 0 /\ out[n][1] = 2)
 =============================================================================
